@@ -143,6 +143,10 @@ def validation_scripts(seed, n_random):
                                      {'op': 'w_from_raw', 'r': 'wr', 'as': 'w'}, {'op': 'weak_count', 'h': 'a'}, D('a'), {'op': 'upgrade', 'w': 'w'}, {'op': 'wdrop', 'w': 'w'},
                                      {'op': 'weak_new', 'as': 'wn'}, {'op': 'upgrade', 'w': 'wn'}, {'op': 'w_strong_count', 'w': 'wn'}, {'op': 'w_weak_count', 'w': 'wn'},
                                      {'op': 'wclone', 'w': 'wn', 'as': 'wn2'}, {'op': 'wdrop', 'w': 'wn'}, {'op': 'wdrop', 'w': 'wn2'}]}))
+    out.append(('test-from-and-compare', {'ops': [{'op': 'new_from', 'obj': 0, 'as': 'a'}, {'op': 'new_from_box', 'obj': 1, 'as': 'b'}, C('a', 'a2'),
+                                                  {'op': 'eq', 'a': 'a', 'b': 'a2'}, {'op': 'eq', 'a': 'a', 'b': 'b'}, {'op': 'ne', 'a': 'a', 'b': 'b'}, {'op': 'lt', 'a': 'a', 'b': 'b'},
+                                                  {'op': 'ge', 'a': 'a', 'b': 'b'}, {'op': 'cmp', 'a': 'b', 'b': 'a'}, {'op': 'partial_cmp', 'a': 'a', 'b': 'a2'},
+                                                  {'op': 'strong_count', 'h': 'a'}, {'op': 'weak_count', 'h': 'b'}, D('a'), D('a2'), D('b')]}))
     rnd = random.Random(4242 + seed)
     for k in range(n_random):
         out.append(('random-%d' % k, random_script(rnd)))
@@ -256,6 +260,24 @@ def items_C06(tier, seed, P):
     its = graph_items('C06', tier, seed, {'C06'}, wextras=True, with_extra_drops=True, noop=True) + mult_items('C06', tier, seed, {'C06'}, wextras=True) + history_items('C06', tier, seed, {'C06'})
     # Weak handles stored inside values (counts seen through Rc::weak_count / Weak::*_count after every step)
     its += weak_graph_items('C06', tier, seed, {'C06'}, opts={'panics_ok': True}, dtor_upgrades=False, one_weak=True)
+    # identity: all handles to an object agree on ptr_eq for its whole life (kept clones compared after every step)
+    for (n, e, nm) in [(2, [R(0, 1), R(1, 0)], 'ring2'), (2, [R(0, 1)], 'owner-target'), (3, F.named_shapes(3)['ring2+leaf'], 'ring2+leaf')]:
+        base = F.build_ops(n, e, extras=True)
+        for i in range(n):
+            base.append({'op': 'clone', 'h': H(i), 'as': 'k%d' % i})
+        for seq in F.drop_sequences(n, n)[:2]:
+            ops = list(base)
+            gone = set()
+            for (kk, i) in seq:
+                ops += F.drop_ops([(kk, i)])
+                gone.add(i)
+                for a in range(n):
+                    for b in range(n):
+                        if a <= b:
+                            ops.append({'op': 'ptr_eq', 'a': 'k%d' % a, 'b': ('k%d' % b) if (a != b or a in gone) else H(a)})
+                    ops += [{'op': 'strong_count', 'h': 'k%d' % a}]
+            its.append(dict(prop='C06', name='%s identity drops=%s' % (nm, ''.join('%s%d' % q for q in seq)), script={'ops': ops}, sym=True, oracles={'C06'},
+                            opts={'panics_ok': True}, layouts=[None]))
     # counts of the peers after value-cloning / value-moving APIs (make_mut clones the handles a value holds; try_unwrap moves them)
     R = lambda i, j: (i, j, True, False)
     for (n, e, nm) in [(2, [R(0, 1)], 'owner-target'), (2, [R(0, 1), R(1, 0)], 'ring2'), (3, F.named_shapes(3)['ring2+leaf'], 'ring2+leaf'), (2, [(0, 1, False, False)], 'chain-unrecorded')]:
@@ -1362,6 +1384,9 @@ def items_C07(tier, seed, P):
                           {'op': 'clone', 'h': 'b', 'as': 't0'}, {'op': 'store', 'via': 'a', 'h': 't0'},
                           {'op': 'clone', 'h': 'a', 'as': 't1'}, {'op': 'store', 'via': 'b', 'h': 't1'}, {'op': 'downgrade', 'h': 'a', 'as': 'wa'}],
         'unique': [N(0, 'a'), {'op': 'downgrade', 'h': 'a', 'as': 'wa'}, {'op': 'wdrop', 'w': 'wa'}, {'op': 'weak_new', 'as': 'wa'}],
+        # constructed through From<T> / From<Box<T>>
+        'from-value': [{'op': 'new_from', 'obj': 0, 'as': 'a'}, {'op': 'extras', 'h': 'a', 'n': 'e0'}, {'op': 'downgrade', 'h': 'a', 'as': 'wa'}],
+        'from-box': [{'op': 'new_from_box', 'obj': 0, 'as': 'a'}, {'op': 'wextras', 'h': 'a', 'n': 'w0'}, {'op': 'downgrade', 'h': 'a', 'as': 'wa'}],
         # the value holds a Weak to itself and its destructor inspects it (std: already dead from the value's point of view)
         'self-weak-in-dtor': [N(0, 'a'), {'op': 'extras', 'h': 'a', 'n': 'e0'}, {'op': 'wextras', 'h': 'a', 'n': 'w0'},
                               {'op': 'downgrade', 'h': 'a', 'as': 'sw'}, {'op': 'store_weak', 'via': 'a', 'w': 'sw'},
@@ -1393,6 +1418,8 @@ def items_C07(tier, seed, P):
         'weak-raw': ([{'op': 'w_into_raw', 'w': 'wa', 'as': 'wr'}, {'op': 'w_from_raw', 'r': 'wr', 'as': 'wa'}], True),
         'ptr_eq': ([{'op': 'clone', 'h': 'a', 'as': 'pe'}, {'op': 'ptr_eq', 'a': 'a', 'b': 'pe'}, {'op': 'drop', 'h': 'pe'}], True),
         'deref': ([{'op': 'deref', 'h': 'a'}], True),
+        'compare': ([{'op': 'clone', 'h': 'a', 'as': 'pe'}, {'op': 'eq', 'a': 'a', 'b': 'pe'}, {'op': 'ne', 'a': 'a', 'b': 'pe'}, {'op': 'le', 'a': 'a', 'b': 'pe'},
+                     {'op': 'gt', 'a': 'a', 'b': 'pe'}, {'op': 'cmp', 'a': 'a', 'b': 'pe'}, {'op': 'partial_cmp', 'a': 'pe', 'b': 'a'}, {'op': 'drop', 'h': 'pe'}], True),
     }
     L = 2 if tier == 'quick' else 3
     names = sorted(calls)
@@ -1409,14 +1436,14 @@ def items_C07(tier, seed, P):
             used = set()
             for ci, c in enumerate(seq):
                 co, still = calls[c]
-                if not held or ('drop_extra' == c and bn in ('leaking-cycle', 'unique')) or (bn == 'unique' and c in ('weak-raw',)):
+                if not held or ('drop_extra' == c and bn in ('leaking-cycle', 'unique', 'from-box')) or (bn == 'unique' and c in ('weak-raw',)):
                     ok = False
                     break
                 # rename auxiliary handles so that repeated calls do not clash
                 ren = []
                 for o in co:
                     o = dict(o)
-                    for key in ('as', 'h', 'w', 'r', 'b', 'v'):
+                    for key in ('as', 'h', 'w', 'r', 'a', 'b', 'v'):
                         if key in o and o[key] in ('c', 'w2', 'u', 'w3', 'r', 'p', 'wr', 'pe') :
                             o[key] = '%s_%d' % (o[key], ci)
                     ren.append(o)
@@ -1468,7 +1495,7 @@ def replay_C07(P, native, rep, scratch):
 PROPS['C07'] = dict(items=items_C07, custom_replay=replay_C07,
                     bounds={'quick': {'states': '6 base states without adoption (one object with symbolic extra strong/Weak handles; owner holding a target that holds a Weak back; a leaking two-cycle; a unique handle with Weak::new; a value whose destructor inspects a Weak to itself; a child whose destructor inspects its dying parent)', 'programs': 'every sequence of <=2 calls and 150 seeded sequences of 3 calls out of 16 (clone, drop, downgrade, upgrade, Weak clone/drop, try_unwrap, get_mut, make_mut, raw round trips, increment/decrement_strong_count, ptr_eq, deref), counts observed through Rc and Weak after every call', 'oracle': 'reference model of std::rc written from the std documentation, run under each path condition; z3 decides equality of every returned count and forks the model where the path condition leaves a std decision open'},
                             'thorough': {'programs': 'plus 400 seeded sequences of 3 calls per base state'}},
-                    outside=OUTSIDE + ['comparison / hashing / formatting / From impls (delegation only, not modelled)', 'counter values within 64 of usize::MAX (cactusref aborts one step earlier than std)', 'unsized coercions, downcast, Pin'],
+                    outside=OUTSIDE + ['hashing / formatting / Default / Borrow / AsRef (not modelled; comparisons and From<T>/From<Box<T>> are)', 'counter values within 64 of usize::MAX (cactusref aborts one step earlier than std)', 'unsized coercions, downcast, Pin'],
                     vacuity=lambda results, extra: None if sum(r.get('extra', {}).get('std_branches', 0) for r in results) > 0 else 'the std model was never compared',
                     replay_oracles=[])
 
